@@ -9,6 +9,9 @@ CONSTANTS
   WriterFollowsOwnSCS = TRUE
   HsOrder = "free"
   HsReadExact = TRUE
+  ScsSids = {0}
+  ReaderScsAnySid = TRUE
+  LazyFlushTypes = {}
 INVARIANTS NoDesync HsExact Emit
 CONSTRAINTS Canonical ReadsLast
 CHECK_DEADLOCK FALSE
